@@ -2,9 +2,10 @@ import PptxModel.Drv.C19
 import PptxModel.Drv.C17
 import PptxModel.Drv.C14
 import PptxModel.Drv.C04
+import PptxModel.Drv.C06
 open Pptx
 
-def handlers : List (List String → Option String) := [Drv.C19.handle, Drv.C17.handle, Drv.C14.handle, Drv.C04.handle]
+def handlers : List (List String → Option String) := [Drv.C19.handle, Drv.C17.handle, Drv.C14.handle, Drv.C04.handle, Drv.C06.handle]
 
 def handle (line : String) : String :=
   let toks := (line.trimAscii.toString.splitOn " ")
